@@ -47,7 +47,8 @@ def run_one(p):
     kname, kw = p['kernel']
     adaptive = p['adaptive'] and kname != 'sum_power_laplace'
     model = RFM(kernel=kname, bandwidth=p['bandwidth'], exponent=p['q'], iters=p['iters'], device='cpu', verbose=False,
-                bandwidth_mode='adaptive' if adaptive else 'constant', tuning_metric='mse', diag=p['diag'], **kw)
+                bandwidth_mode='adaptive' if adaptive else 'constant',
+                tuning_metric='accuracy' if p.get('maximize') else 'mse', diag=p['diag'], **kw)
     rec = ScriptedFit(model, scores=p['scores'])
     model.fit((X, y), (Xv, yv), iters=p['iters'], reg=p['lam'], return_best_params=p['return_best'],
               early_stop_rfm=p['early'], early_stop_multiplier=p['mult'], verbose=False, solver=p['solver'],
@@ -91,7 +92,7 @@ def execute(chunk):
                                         'detail': f'max|predict(centers) - (Y - lam alpha)| = {r["pres"]:.3e} > {4 * r["allow"]:.3e}'})
             sc = r['scores']
             full = sc + [sc[-1]] * (p['iters'] + 1 - len(sc))  # real-score runs that stopped early: pad (never read)
-            q = {'op': 'fitloop', 'maximize': False, 'returnBest': p['return_best'], 'earlyStop': p['early'],
+            q = {'op': 'fitloop', 'maximize': bool(p.get('maximize')), 'returnBest': p['return_best'], 'earlyStop': p['early'],
                  'adaptive': r['adaptive'], 'mult': core.f2b(p['mult']), 'iters': p['iters'],
                  'scores': [core.f2b(x) for x in full]}
             m = drv.ask(q)
@@ -146,6 +147,11 @@ def gen_cases(run):
             adaptive=r.random() < 0.5, n=n, d=r.randint(2, 6), outputs=r.randint(1, 3), pos=pos,
             scores=None if use_real else scripted(iters, posi, tail_stop, r), bandwidth=r.choice([1.0, 3.0, 10.0]),
             xscale=r.choice([1.0, 1.0, 10.0]), dseed=r.randint(0, 10 ** 6), mbs=r.choice([None, None, 3, 7])))
+    # the maximising branch of the snapshot code: scripted scores negated (an accuracy-like metric), same landing positions
+    for c in cases:
+        if c['scores'] is not None and r.random() < 0.35:
+            c['maximize'] = True
+            c['scores'] = [6.0 - s for s in c['scores']]
     for c in cases:  # lpq needs q <= p; fix up
         if c['kernel'][0] == 'lpq':
             c['q'] = min(c['q'], c['kernel'][1]['norm_p'])
